@@ -940,6 +940,66 @@ Proof.
   - rewrite Z.mod_small by lia. split; [reflexivity|]. lia.
 Qed.
 
+(* ---- two's complement on the decoder side ---- *)
+
+Lemma unpack_one_signed big f fu h u :
+  fwidth f = fwidth fu -> fsigned f = true -> fsigned fu = false ->
+  unpack_one big fu h = Ok u ->
+  unpack_one big f h = Ok (if pow256 (fwidth f) / 2 <=? u then u - pow256 (fwidth f) else u).
+Proof.
+  intros Hw Hs Hu. unfold unpack_one, unpack, fmt_size. cbn [fold_right]. rewrite Hw.
+  destruct (Nat.eqb (length h) (fwidth fu + 0)); [|discriminate]. cbn [bind unpack_go].
+  intros H. injection H as <-. unfold unpack1, of_unsigned. rewrite Hs, Hu, Hw. cbn [andb]. reflexivity.
+Qed.
+
+(* reading the same bytes with the signed decoder instead of the unsigned one of the same
+   width subtracts 2^bits exactly when the top bit is set *)
+Theorem signed_decode bo wo k payload ptr u p :
+  kind_signed k = true ->
+  decode1 spec_code bo wo (TNum (unsigned_of k)) payload ptr = Ok (VNum (unsigned_of k) u, p) ->
+  let m := 2 ^ (8 * Z.of_nat (kind_width k)) in
+  decode1 spec_code bo wo (TNum k) payload ptr = Ok (VNum k (if m / 2 <=? u then u - m else u), p).
+Proof.
+  assert (Hbo : prefix_big (endian_str spec_code bo) = Ok (is_big bo)) by (destruct bo; reflexivity).
+  intros Hs H m. destruct k; try discriminate Hs; cbn [unsigned_of] in H; unfold decode1 in *.
+  - change (get_method (dec_name (TNum KU8)) (pc_dec spec_code)) with (@Ok dec_shape (DecDirect 1 1 "B")) in H.
+    change (get_method (dec_name (TNum KI8)) (pc_dec spec_code)) with (@Ok dec_shape (DecDirect 1 1 "b")).
+    cbn [bind run_dec_num] in *. rewrite Hbo in *. cbn [bind] in *.
+    change (fmt_of_char "B") with (@Ok fmtc FB) in H. change (fmt_of_char "b") with (@Ok fmtc Fb). cbn [bind] in *.
+    destruct (unpack_one (is_big bo) FB (handle_of payload (ptr + 1) 1)) as [x|] eqn:E; [|discriminate].
+    cbn [bind] in H. injection H as <- <-.
+    rewrite (unpack_one_signed _ Fb FB _ _ eq_refl eq_refl eq_refl E). reflexivity.
+  - change (get_method (dec_name (TNum KU16)) (pc_dec spec_code)) with (@Ok dec_shape (DecDirect 2 2 "H")) in H.
+    change (get_method (dec_name (TNum KI16)) (pc_dec spec_code)) with (@Ok dec_shape (DecDirect 2 2 "h")).
+    cbn [bind run_dec_num] in *. rewrite Hbo in *. cbn [bind] in *.
+    change (fmt_of_char "H") with (@Ok fmtc FH) in H. change (fmt_of_char "h") with (@Ok fmtc Fh). cbn [bind] in *.
+    destruct (unpack_one (is_big bo) FH (handle_of payload (ptr + 2) 2)) as [x|] eqn:E; [|discriminate].
+    cbn [bind] in H. injection H as <- <-.
+    rewrite (unpack_one_signed _ Fh FH _ _ eq_refl eq_refl eq_refl E). reflexivity.
+  - change (get_method (dec_name (TNum KU32)) (pc_dec spec_code)) with (@Ok dec_shape (DecWords 4 4 "I" "!")) in H.
+    change (get_method (dec_name (TNum KI32)) (pc_dec spec_code)) with (@Ok dec_shape (DecWords 4 4 "i" "!")).
+    cbn [bind run_dec_num] in *.
+    change (run_words spec_code (pc_unpack_words spec_code) bo wo "I" (handle_of payload (ptr + 4) 4))
+      with (run_words spec_code (pc_unpack_words spec_code) bo wo "i" (handle_of payload (ptr + 4) 4)) in H.
+    destruct (run_words spec_code (pc_unpack_words spec_code) bo wo "i" (handle_of payload (ptr + 4) 4)) as [h|]; [|discriminate].
+    cbn [bind] in *. change (prefix_big "!") with (@Ok bool true) in *. cbn [bind] in *.
+    change (fmt_of_char "I") with (@Ok fmtc FI) in H. change (fmt_of_char "i") with (@Ok fmtc Fi). cbn [bind] in *.
+    destruct (unpack_one true FI h) as [x|] eqn:E; [|discriminate].
+    cbn [bind] in H. injection H as <- <-.
+    rewrite (unpack_one_signed _ Fi FI _ _ eq_refl eq_refl eq_refl E). reflexivity.
+  - change (get_method (dec_name (TNum KU64)) (pc_dec spec_code)) with (@Ok dec_shape (DecWords 8 8 "Q" "!")) in H.
+    change (get_method (dec_name (TNum KI64)) (pc_dec spec_code)) with (@Ok dec_shape (DecWords 8 8 "q" "!")).
+    cbn [bind run_dec_num] in *.
+    change (run_words spec_code (pc_unpack_words spec_code) bo wo "Q" (handle_of payload (ptr + 8) 8))
+      with (run_words spec_code (pc_unpack_words spec_code) bo wo "q" (handle_of payload (ptr + 8) 8)) in H.
+    destruct (run_words spec_code (pc_unpack_words spec_code) bo wo "q" (handle_of payload (ptr + 8) 8)) as [h|]; [|discriminate].
+    cbn [bind] in *. change (prefix_big "!") with (@Ok bool true) in *. cbn [bind] in *.
+    change (fmt_of_char "Q") with (@Ok fmtc FQ) in H. change (fmt_of_char "q") with (@Ok fmtc Fq). cbn [bind] in *.
+    destruct (unpack_one true FQ h) as [x|] eqn:E; [|discriminate].
+    cbn [bind] in H. injection H as <- <-.
+    rewrite (unpack_one_signed _ Fq FQ _ _ eq_refl eq_refl eq_refl E). reflexivity.
+Qed.
+
 (* ---- the repack option of the builder (non-default) ---- *)
 
 (* with byte order Big, to_registers(repack=True) is to_registers() *)
@@ -1053,3 +1113,10 @@ Definition via_coils (bo wo : endian) (vs : list value) : res (list value * nat)
 Theorem via_coils_refuted :
   exists bo wo vs, wf_values vs = true /\ via_coils bo wo vs = Ok ([U32 0x33441122], 4%nat) /\ vs = [U32 0x11223344].
 Proof. exists Big, Little, [U32 0x11223344]. vm_compute. repeat split. Qed.
+
+Theorem signed_decode_code bo wo k payload ptr u p :
+  kind_signed k = true ->
+  decode1 code bo wo (TNum (unsigned_of k)) payload ptr = Ok (VNum (unsigned_of k) u, p) ->
+  let m := 2 ^ (8 * Z.of_nat (kind_width k)) in
+  decode1 code bo wo (TNum k) payload ptr = Ok (VNum k (if m / 2 <=? u then u - m else u), p).
+Proof. rewrite code_is_spec. apply signed_decode. Qed.
